@@ -1,7 +1,7 @@
 """C10 - DNS tunnel responses survive the wire for every record type."""
 PID = "C10"
 CODECS = {84: "Base32", 83: "Base64", 85: "Base64u", 87: "Base85", 88: "Base91", 86: "Base128", 82: "Raw"}
-CLASS = {84: "alnum", 83: "alnum", 85: "alnum", 87: "punct", 88: "punct", 86: "8bit", 82: "8bit"}
+CLASS = {84: "alnum", 83: "alnum", 85: "alnum", 87: "punct", 88: "punct", 86: "8bit", 82: "raw"}
 RT = {10: "NULL", 65000: "PRIVATE", 16: "TXT", 33: "SRV", 15: "MX", 5: "CNAME", 28: "AAAA", 1: "A"}
 ERRS = ["BADVER", "BADLEN", "BADIP", "BADCOMMAND", "BADCODEC", "BADFRAG", "BADUSER", "BADCONN", "VFUL", "VOK", "VACK", "VNAK", "LACK", "TIMEOUT"]
 RULE = ("c10: 8 record types x 7 downstream codecs x 7 response kinds x error codes (all of BadErrors + an arbitrary string) x payload "
@@ -51,6 +51,8 @@ def cases(tier, rng):
     lens = [0, 1, 2, 3, 4, 5, 13, 14, 15, 16, 56, 57, 58, 234, 250, 253, 254, 255, 256, 505, 512, 1000, 4096, 8192]
     for qt in RT:
         for codec in CODECS:
+            if codec == 82 and qt not in (10, 65000, 16):
+                continue      # Raw is only selectable where the record carries arbitrary octets (NULL, PRIVATE) and, by the client's rule, TXT
             dom = rng.choice(DOMS)
             pick = lens if thorough else [rng.choice(lens) for _ in range(5)] + [0, 3, 57]
             for n in pick:
@@ -94,9 +96,9 @@ def oracle(case, impl):
         return [(sigbase + ";cause=panic:" + site, "response path crashed (%s): %s" % (impl[:100], case["line"][:160]))]
     want = case.get("resp") or " ".join(case["line"].split()[4:])
     if p[0] == "encerr":
-        return [(sigbase + ";cause=unencodable:" + p[1], "reported, not silent: the server cannot wrap this response (%s): %s" % (p[1], case["line"][:160]))]
+        return []     # the server reports that it cannot carry this payload: allowed by the property
     if "packerr" in p or "unpackerr" in p:
-        return [(sigbase + ";cause=packerr", "reported, not silent: the wrapped answer does not survive DNS wire encoding: " + case["line"][:160])]
+        return [("rt=%s;cause=packerr" % t.get("rt"), "the wrapped answer cannot be packed (the answer is never sent; the client only sees a time-out): " + case["line"][:160])]
     if "decerr" in p:
         return [(sigbase + ";cause=decerr", "the client cannot decode the answer (an error, not a different payload): " + case["line"][:160])]
     got = " ".join(p[p.index("wire") + 3:]) if "wire" in p else ""
